@@ -25,6 +25,7 @@ import (
 	"go/constant"
 	"go/token"
 	"go/types"
+	"strings"
 
 	"golang.org/x/tools/go/callgraph"
 	"golang.org/x/tools/go/ssa"
@@ -1227,101 +1228,203 @@ func checkLookaround(w *World, r *Report) {
 			}
 			n++
 			construct := fmt.Sprintf("look-around x[v%+d] is guarded", k)
-			fl := &boolFlow{fn: fn, entry: false}
-			fl.edge = func(b *ssa.BasicBlock, i int) bool {
-				return anyEdgeFact(b, i, func(cv ssa.Value, trueIdx int) bool {
-					bo, ok := cv.(*ssa.BinOp)
+			// searchSlack: base = v1 + r with r = strings.Index*(y[v1:], …): once r != -1 is known,
+			// base < len(y); with y = x[:len(x)-c] (c = 0 for y = x) that is base + c < len(x).
+			// Returns the search call and c.
+			searchSlack := func() (*ssa.Call, int64, bool) {
+				bo, ok := unspill(base).(*ssa.BinOp)
+				if !ok || bo.Op != token.ADD {
+					return nil, 0, false
+				}
+				for _, pr := range [][2]ssa.Value{{bo.X, bo.Y}, {bo.Y, bo.X}} {
+					v1, rv := pr[0], pr[1]
+					c, ok := rv.(*ssa.Call)
 					if !ok {
-						return false
+						continue
 					}
-					op, l, rgt := bo.Op, bo.X, bo.Y
-					if i != trueIdx {
-						switch op {
-						case token.LSS:
-							op = token.GEQ
-						case token.LEQ:
-							op = token.GTR
-						case token.GTR:
-							op = token.LEQ
-						case token.GEQ:
-							op = token.LSS
-						case token.EQL:
-							op = token.NEQ
-						case token.NEQ:
-							op = token.EQL
-						default:
-							return false
-						}
+					f := calleeFunc(c)
+					if f == nil || f.Pkg() == nil || (f.Pkg().Path() != "strings" && f.Pkg().Path() != "bytes") || !strings.HasPrefix(f.Name(), "Index") || len(c.Call.Args) == 0 {
+						continue
 					}
-					// normalise to l < r / l <= r
-					switch op {
-					case token.GTR:
-						op, l, rgt = token.LSS, rgt, l
-					case token.GEQ:
-						op, l, rgt = token.LEQ, rgt, l
+					sl, ok := c.Call.Args[0].(*ssa.Slice)
+					if !ok || sl.High != nil || sl.Low == nil || !sameValue(unspill(sl.Low), unspill(v1)) {
+						continue
 					}
-					sameBase := func(v ssa.Value) bool { return sameValue(unspill(v), unspill(base)) }
-					if k > 0 {
-						// base + k' < len(x)  |  base + k' <= len(x)-1 …
-						need := k
-						if op == token.LEQ {
-							need = k + 1 // l <= r  ==  l < r+1
-						}
-						if op != token.LSS && op != token.LEQ {
-							return false
-						}
-						// forms: (base+k') OP len ; base OP len-k' ; k' OP len-base
-						if b2, kk, ok := split(l); ok && sameBase(b2) && lenOf(rgt, x) {
-							if op == token.LSS {
-								return kk >= k
-							}
-							return kk >= need // base+kk <= len  ⇒ base+kk-1 < len
-						}
-						if sameBase(l) {
-							if rb, kk, ok := split(rgt); ok && lenOf(rb, x) && kk < 0 {
-								// base < len-kk'  (kk negative)
-								if op == token.LSS {
-									return -kk >= k
-								}
-								return -kk >= need
-							}
-						}
-						if c, isC := intConst(l); isC {
-							if rb, ok := rgt.(*ssa.BinOp); ok && rb.Op == token.SUB && lenOf(rb.X, x) && sameBase(rb.Y) {
-								// c < len - base
-								if op == token.LSS {
-									return c >= k
-								}
-								return c >= need
-							}
-						}
-						return false
+					y := unspill(sl.X)
+					if sameValue(y, unspill(x)) {
+						return c, 0, true
 					}
-					// k < 0: base >= -k
-					kk := -k
-					switch op {
-					case token.LSS: // c < base
-						if c, isC := intConst(l); isC && sameBase(rgt) {
-							return c >= kk-1
-						}
-					case token.LEQ: // c <= base
-						if c, isC := intConst(l); isC && sameBase(rgt) {
-							return c >= kk
-						}
-					case token.NEQ:
-						if kk == 1 {
-							if c, isC := intConst(rgt); isC && c == 0 && sameBase(l) {
-								return true
-							}
-							if c, isC := intConst(l); isC && c == 0 && sameBase(rgt) {
-								return true
-							}
+					// y = x[:len(x)-c]
+					if ys, ok := y.(*ssa.Slice); ok && ys.Low == nil && ys.High != nil && sameValue(unspill(ys.X), unspill(x)) {
+						if hb, kk, ok := split(ys.High); ok && lenOf(hb, x) && kk < 0 {
+							return c, -kk, true
 						}
 					}
-					return false
-				})
+				}
+				return nil, 0, false
 			}
-			fl.solve()
+			var mkFlow func(k int64, depth int) *boolFlow
+			mkFlow = func(k int64, depth int) *boolFlow {
+				var below *boolFlow
+				if k > 1 && depth < 3 {
+					below = mkFlow(k-1, depth+1)
+				}
+				fl := &boolFlow{fn: fn, entry: false}
+				fl.edge = func(b *ssa.BasicBlock, i int) bool {
+					return anyEdgeFact(b, i, func(cv ssa.Value, trueIdx int) bool {
+						bo, ok := cv.(*ssa.BinOp)
+						if !ok {
+							return false
+						}
+						if k > 0 {
+							// the search succeeded: r != -1 / r >= 0 / !(r < 0) / !(r == -1)
+							if sc, slack, ok := searchSlack(); ok && slack >= k-0 && false {
+								_ = sc
+							}
+							if sc, slack, ok := searchSlack(); ok {
+								for _, pr := range [][2]ssa.Value{{bo.X, bo.Y}, {bo.Y, bo.X}} {
+									if pr[0] != ssa.Value(sc) {
+										continue
+									}
+									c, isC := intConst(pr[1])
+									if !isC {
+										continue
+									}
+									onTrue := i == trueIdx
+									found := false
+									switch {
+									case bo.Op == token.EQL && c == -1:
+										found = !onTrue
+									case bo.Op == token.NEQ && c == -1:
+										found = onTrue
+									case bo.Op == token.LSS && c == 0 && pr[0] == bo.X:
+										found = !onTrue
+									case bo.Op == token.GEQ && c == 0 && pr[0] == bo.X:
+										found = onTrue
+									}
+									if found && slack >= k {
+										return true
+									}
+								}
+							}
+							// base + k != len(x) where base + (k-1) < len(x) is already known
+							if below != nil || k == 1 {
+								if bo.Op == token.EQL || bo.Op == token.NEQ {
+									for _, pr := range [][2]ssa.Value{{bo.X, bo.Y}, {bo.Y, bo.X}} {
+										b2, kk, ok := split(pr[0])
+										if !ok || kk != k || !sameValue(unspill(b2), unspill(base)) || !lenOf(pr[1], x) {
+											continue
+										}
+										ne := (bo.Op == token.NEQ) == (i == trueIdx)
+										if !ne {
+											continue
+										}
+										if k == 1 {
+											// base < len(x) must be known: from the search (slack >= 0)
+											if _, slack, ok := searchSlack(); ok && slack >= 0 {
+												// the search fact must hold here: approximated by the search call dominating the test
+												if sc, _, _ := searchSlack(); sc != nil && (sc.Block() == b || sc.Block().Dominates(b)) {
+													return true
+												}
+											}
+										} else if below != nil && below.out(b, below.in[b]) {
+											return true
+										}
+									}
+								}
+							}
+						}
+						op, l, rgt := bo.Op, bo.X, bo.Y
+						if i != trueIdx {
+							switch op {
+							case token.LSS:
+								op = token.GEQ
+							case token.LEQ:
+								op = token.GTR
+							case token.GTR:
+								op = token.LEQ
+							case token.GEQ:
+								op = token.LSS
+							case token.EQL:
+								op = token.NEQ
+							case token.NEQ:
+								op = token.EQL
+							default:
+								return false
+							}
+						}
+						// normalise to l < r / l <= r
+						switch op {
+						case token.GTR:
+							op, l, rgt = token.LSS, rgt, l
+						case token.GEQ:
+							op, l, rgt = token.LEQ, rgt, l
+						}
+						sameBase := func(v ssa.Value) bool { return sameValue(unspill(v), unspill(base)) }
+						if k > 0 {
+							// base + k' < len(x)  |  base + k' <= len(x)-1 …
+							need := k
+							if op == token.LEQ {
+								need = k + 1 // l <= r  ==  l < r+1
+							}
+							if op != token.LSS && op != token.LEQ {
+								return false
+							}
+							// forms: (base+k') OP len ; base OP len-k' ; k' OP len-base
+							if b2, kk, ok := split(l); ok && sameBase(b2) && lenOf(rgt, x) {
+								if op == token.LSS {
+									return kk >= k
+								}
+								return kk >= need // base+kk <= len  ⇒ base+kk-1 < len
+							}
+							if sameBase(l) {
+								if rb, kk, ok := split(rgt); ok && lenOf(rb, x) && kk < 0 {
+									// base < len-kk'  (kk negative)
+									if op == token.LSS {
+										return -kk >= k
+									}
+									return -kk >= need
+								}
+							}
+							if c, isC := intConst(l); isC {
+								if rb, ok := rgt.(*ssa.BinOp); ok && rb.Op == token.SUB && lenOf(rb.X, x) && sameBase(rb.Y) {
+									// c < len - base
+									if op == token.LSS {
+										return c >= k
+									}
+									return c >= need
+								}
+							}
+							return false
+						}
+						// k < 0: base >= -k
+						kk := -k
+						switch op {
+						case token.LSS: // c < base
+							if c, isC := intConst(l); isC && sameBase(rgt) {
+								return c >= kk-1
+							}
+						case token.LEQ: // c <= base
+							if c, isC := intConst(l); isC && sameBase(rgt) {
+								return c >= kk
+							}
+						case token.NEQ:
+							if kk == 1 {
+								if c, isC := intConst(rgt); isC && c == 0 && sameBase(l) {
+									return true
+								}
+								if c, isC := intConst(l); isC && c == 0 && sameBase(rgt) {
+									return true
+								}
+							}
+						}
+						return false
+					})
+				}
+				fl.solve()
+				return fl
+			}
+			fl := mkFlow(k, 0)
 			if fl.at(in) {
 				r.ok("R05.13", ssaName(fn), construct, w.posOf(in.Pos()), "a bound test of the same position dominates the access", true)
 			} else {
